@@ -235,32 +235,31 @@ def sig_answer(m, cap_cv, cert_name, ver, role, prf, honest):
 
 # =========================================================================================
 def ske_answer(pub, kt, ver, scheme, tbs, sig):
-    """ServerKeyExchange signature primitive answer, hashing written from RFC 5246 7.4.3 /
-    RFC 4346 7.4.3 (independent of ServerKeyExchange.hash / verifyServerKeyExchange)."""
-    sig = bytearray(sig)
-    try:
-        if tuple(ver) < (3, 3):
-            if kt in ('rsa', 'rsa-pss'):
-                return bool(pub.verify(sig, bytearray(digest_of(tbs, None))))
-            h = bytearray(hashlib.sha1(tbs).digest())
-            if kt == 'ecdsa':
-                h = h[:pub.public_key.curve.baselen]
-            return bool(pub.verify(sig, h))
-        hname, pad = SCHEME_HASH.get(tuple(scheme), (None, None))
-        if hname is None:
-            return False
-        if hname == 'intrinsic':
-            return bool(pub.hashAndVerify(sig, bytearray(tbs)))
-        h = bytearray(hashlib.new(hname, tbs).digest())
-        if kt == 'ecdsa':
-            return bool(pub.verify(sig, h[:pub.public_key.curve.baselen]))
-        if kt == 'dsa':
-            return bool(pub.verify(sig, h))
-        if pad == 'pss':
-            return bool(pub.verify(sig, h, 'pss', hname, len(h)))
-        return bool(pub.verify(sig, h, 'pkcs1', hname, 0))
-    except Exception:   # noqa
+    """ServerKeyExchange signature answer: hashing written from RFC 5246 7.4.3 / RFC 4346 7.4.3, the
+    primitive from harness/c05_refsig.py (independent of /repo's ServerKeyExchange.hash,
+    verifyServerKeyExchange and key classes)."""
+    import c05_refsig as R
+    tbs = bytes(tbs)
+    if tuple(ver) < (3, 3):
+        if kt in ('rsa', 'rsa-pss'):
+            return R.ref_verify(pub, 'rsa', None, 'pkcs1', digest_of(tbs, None), sig)
+        return R.ref_verify(pub, kt, None, None, hashlib.sha1(tbs).digest(), sig)
+    hname, pad = SCHEME_HASH.get(tuple(scheme), (None, None))
+    if hname is None:
         return False
+    if hname == 'intrinsic':
+        return R.ref_verify(pub, 'Ed25519', None, None, tbs, sig)
+    h = hashlib.new(hname, tbs).digest()
+    if kt in ('ecdsa', 'dsa'):
+        return R.ref_verify(pub, kt, None, None, h, sig)
+    return R.ref_verify(pub, 'rsa', hname, pad or 'pkcs1', h, sig)
+
+
+def edge_of(cred_name, honest_sig, name):
+    """algebraic edge value derived from the honest signature and the certificate's public numbers"""
+    import c05_refsig as R
+    chain = loop.creds(cred_name)[0]
+    return R.edge_signature(chain.getEndEntityPublicKey(), keytype_of(chain), honest_sig, name)
 
 
 def kx_of(suite):
@@ -308,6 +307,8 @@ class Run(object):
                     return None
                 if how in SIG_CORRUPTIONS and target == 'cv':
                     m.signature = P.corrupt_sig(m.signature, how, rng, self.stale)
+                if how.startswith('edge:') and target == 'cv':
+                    m.signature = bytearray(edge_of(case['key'], m.signature, how[5:]))
                 if how == 'unknown-scheme':              # a value that names no signature scheme; signature untouched
                     m.signatureAlgorithm = tuple(case['scheme'])
                 if how == 'scheme' and resign is not None:
@@ -319,6 +320,8 @@ class Run(object):
             if isinstance(m, ServerKeyExchange):
                 if how in SIG_CORRUPTIONS and m.signature is not None and target == 'ske':
                     m.signature = P.corrupt_sig(m.signature, how, rng, self.stale)
+                if how.startswith('edge:') and m.signature is not None and target == 'ske':
+                    m.signature = bytearray(edge_of(case['key'], m.signature, how[5:]))
                 if how == 'replay-ske' and self.stale is not None and target == 'ske':
                     m = self.stale
                 cap['ske'] = m
@@ -471,6 +474,10 @@ def site_cert(case, rng):
     if case.get('checker_fp') is not None:
         m['want'] = [CRED_ID[case['checker_fp'][1:]]]
     expect = honest and (case.get('checker_fp') is None or case.get('checker_match'))
+    if how.startswith('edge:'):
+        # an edge value can be a valid signature (e.g. ECDSA (r, n-s)): the verdict the property demands is
+        # the reference verifier's, never the code's
+        expect = bool(m.get('sig_answer'))
     return finish(case, p, verifier, vout, pout, m, expect, CRED_ID[name])
 
 
@@ -877,7 +884,10 @@ def site_pha(case, rng):
         sig_answer(m, (scheme, sig, transcript), name, ver, b'client', prf, how == 'honest')
     m['a_fin'].append((4, [11], how != 'bad-finished'))
     m['by_construction'] += ['fin', 'ctx']
-    o = finish(case, p, 'server', sv, cl[0], m, how == 'honest', CRED_ID[name])
+    exp = how == 'honest'
+    if how.startswith('edge:'):
+        exp = bool(m.get('sig_answer'))
+    o = finish(case, p, 'server', sv, cl[0], m, exp, CRED_ID[name])
     o['wire_sig'] = wire_sig.hex() if wire_sig else None
     o['pha_before'] = before
     if o['code'] != 0 or True:
@@ -918,17 +928,18 @@ def scheme_sign(key, scheme, data):
 
 
 def scheme_verify(pub, scheme, data, sig):
-    name = SignatureScheme.toRepr(scheme)
-    try:
-        if scheme in ((8, 7), (8, 8)):
-            return bool(pub.hashAndVerify(bytearray(sig), bytearray(data), None, 'intrinsic', None))
-        if scheme[1] == 3 or 'brainpool' in name:
-            return bool(pub.hashAndVerify(bytearray(sig), bytearray(data), None, SignatureScheme.getHash(name), None))
-        hn = SignatureScheme.getHash(name)
-        return bool(pub.hashAndVerify(bytearray(sig), bytearray(data), SignatureScheme.getPadding(name), hn,
-                                      getattr(hashlib, hn)().digest_size))
-    except Exception:   # noqa
+    """signature over the MESSAGE `data` with a TLS 1.3 scheme, by the reference verifiers"""
+    import c05_refsig as R
+    scheme = tuple(scheme)
+    hname, pad = SCHEME_HASH.get(scheme, (None, None))
+    if hname is None:
         return False
+    if hname == 'intrinsic':
+        return R.ref_verify(pub, 'Ed25519', None, None, bytes(data), sig)
+    h = hashlib.new(hname, bytes(data)).digest()
+    if scheme[1] == 3 or scheme in ((8, 26), (8, 27), (8, 28)):
+        return R.ref_verify(pub, 'ecdsa', None, None, h, sig)
+    return R.ref_verify(pub, 'rsa', hname, pad or 'pkcs1', h, sig)
 
 
 def site_dc(case, rng):
